@@ -1,5 +1,9 @@
 import BoltonsVerif.C04.Proofs
 import BoltonsVerif.C04.Closed
+import BoltonsVerif.C04.View
+import BoltonsVerif.C04.Names
+import BoltonsVerif.C04.Win
+import BoltonsVerif.C04.Sym
 import BoltonsVerif.Generated.C04_Consts
 /-
 C04 — property theorems: a trace accepted by `SafeTrace` is crash safe at every prefix under both
@@ -211,5 +215,440 @@ theorem claim_then_rename_breaks :
     let t := [Ev.openPart true true 0o644, .write [1, 2] 0, .flush, .fsync, .close, .noop, .truncDest, .renamePartDest]
     SafeTrace t = false ∧ fs0.readDest = none ∧
       (exec fs0 (t.take 7)).map FS.destAfterProcCrash = some (some []) := by decide
+
+/-! ### round 3: observers of the directory, the `link`/`unlink` window, one writer per part file -/
+
+/-- **What observers see while the save runs (no crash).**  After every event of an accepted trace:
+    a reader of the destination path finds exactly the old state or exactly the complete new content;
+    every inode that existed at the start is unchanged (a reader that OPENED the destination before the
+    save keeps reading exactly the old content through its descriptor, also after the publication);
+    the destination's name never disappears from the directory; before the publishing event the
+    directory entry of the destination is the one from the start. -/
+theorem safeTrace_live_view (fs0 : FS) (t : List Ev) (hwf : fs0.WF) (hh : fs0.hist = [])
+    (hsafe : SafeTrace t = true) :
+    ∀ p q fs, t = p ++ q → exec fs0 p = some fs →
+      (fs.readDest = fs0.readDest ∨ fs.readDest = some (allWrites t)) ∧
+      (∀ i, i < fs0.inodes.length → fs.inodes[i]? = fs0.inodes[i]?) ∧
+      (fs0.hasDest = true → fs.hasDest = true) ∧
+      (publishes p = false → fs.dir.dest = fs0.dir.dest) := by
+  intro p q fs ht hx
+  subst ht
+  have hsp := safeTrace_prefix p q hsafe
+  unfold SafeTrace at hsp
+  cases hp : St.init.run p with
+  | none => simp [hp] at hsp
+  | some s1 =>
+    have hi := inv_run fs0 p St.init s1 fs0 fs [] (inv_init fs0 hh) hp hx
+    simp only [List.nil_append] at hi
+    have hold := inv_old_inodes fs0 s1 fs _ hi
+    obtain ⟨hpub, _⟩ := published_run p St.init s1 hp
+    have hinit : St.init.published = false := by decide
+    rw [hinit, Bool.false_or] at hpub
+    -- the destination's entry
+    have hdest : (publishes p = false → fs.dir.dest = fs0.dir.dest) ∧
+        (publishes p = true → fs.dir.dest = some fs0.inodes.length ∧
+          ∃ x, fs.inodes = fs0.inodes ++ [x] ∧ x.durable = allWrites p ∧ x.tail = []) := by
+      obtain ⟨ph, op, db, us⟩ := s1
+      cases ph <;> simp only [GInv] at hi
+      · have hpv : publishes p = false := by rw [← hpub]; simp [St.published]
+        simp [hpv]; exact hi.2.1
+      · have hpv : publishes p = false := by rw [← hpub]; simp [St.published]
+        simp [hpv]; exact hi.1
+      · have hpv : publishes p = true := by rw [← hpub]; simp [St.published]
+        obtain ⟨h1, _, _, x, h4, h5, h6, _⟩ := hi
+        simp [hpv]; exact ⟨h1, x, h4, h5, h6⟩
+      · have hpv : publishes p = true := by rw [← hpub]; simp [St.published]
+        obtain ⟨h1, _, _, x, h4, h5, h6, _⟩ := hi
+        simp [hpv]; exact ⟨h1, x, h4, h5, h6⟩
+      · have hpv : publishes p = false := by rw [← hpub]; simp [St.published]
+        simp [hpv]; exact hi.1
+    have hread : fs.readDest = fs0.readDest ∨ fs.readDest = some (allWrites (p ++ q)) := by
+      cases hb : publishes p with
+      | false =>
+        left
+        have hd := hdest.1 hb
+        unfold FS.readDest FS.inode?
+        rw [hd]
+        cases h0 : fs0.dir.dest with
+        | none => rfl
+        | some i => simp only; rw [hold i (hwf.1 i h0)]
+      | true =>
+        right
+        obtain ⟨hd, x, h4, h5, h6⟩ := hdest.2 hb
+        obtain ⟨s2, hq⟩ : ∃ s2, s1.run q = some s2 := by
+          unfold SafeTrace at hsafe
+          rw [run_append, hp] at hsafe
+          cases hq : s1.run q with
+          | none => simp [hq] at hsafe
+          | some s2 => exact ⟨s2, rfl⟩
+        have hs1 : s1.published = true := by rw [hpub, hb]
+        have hw : allWrites (p ++ q) = allWrites p := by
+          rw [allWrites_append, (published_run q s1 s2 hq).2 hs1]; simp
+        rw [hw]
+        simp [FS.readDest, FS.inode?, hd, h4, Inode.cache, h5, h6]
+    refine ⟨hread, hold, ?_, hdest.1⟩
+    intro h0
+    cases hb : publishes p with
+    | false => simp [FS.hasDest, hdest.1 hb] at h0 ⊢; exact h0
+    | true => simp [FS.hasDest, (hdest.2 hb).1]
+
+
+
+/-- **The window between `link part dest` and `unlink part`** (`overwrite=False`): both names are hard
+    links to ONE inode that holds the complete new content, all of it durable; a process death there
+    leaves the complete destination PLUS the part file's name; removing that name afterwards (what the
+    interrupted `atomic_rename` had left to do, or a later `overwrite_part` save does) leaves the
+    complete destination and no part file. -/
+theorem link_window (fs0 : FS) (t : List Ev) (hh : fs0.hist = []) (hsafe : SafeTrace t = true) :
+    ∀ p q fs s, t = p ++ q → exec fs0 p = some fs → St.init.run p = some s → s.phase = .linked →
+      fs.sameInode = true ∧ fs.hasPart = true ∧
+      fs.destAfterProcCrash = some (allWrites t) ∧ fs.procCrash.readPart = some (allWrites t) ∧
+      (∀ i, fs.inode? fs.dir.dest = some i → i.tail = []) ∧
+      ∃ fs', fs.procCrash.step .unlinkPart = .ok fs' ∧ fs'.readDest = some (allWrites t) ∧
+        fs'.hasPart = false := by
+  intro p q fs s ht hx hp hl
+  subst ht
+  have hi := inv_run fs0 p St.init s fs0 fs [] (inv_init fs0 hh) hp hx
+  simp only [List.nil_append] at hi
+  obtain ⟨s2, hq⟩ : ∃ s2, s.run q = some s2 := by
+    unfold SafeTrace at hsafe
+    rw [run_append, hp] at hsafe
+    cases hq : s.run q with
+    | none => simp [hq] at hsafe
+    | some s2 => exact ⟨s2, rfl⟩
+  have hs1 : s.published = true := by simp [St.published, hl]
+  have hw : allWrites (p ++ q) = allWrites p := by
+    rw [allWrites_append, (published_run q s s2 hq).2 hs1]; simp
+  rw [hw]
+  obtain ⟨ph, op, db, us⟩ := s
+  simp at hl; subst hl
+  simp only [GInv] at hi
+  obtain ⟨h1, h2, _, x, h4, h5, h6, _⟩ := hi
+  refine ⟨by simp [FS.sameInode, h1, h2], by simp [FS.hasPart, h2], ?_, ?_, ?_, ?_⟩
+  · simp [FS.destAfterProcCrash, FS.procCrash, FS.readDest, FS.inode?, h1, h4, Inode.cache, h5, h6]
+  · simp [FS.procCrash, FS.readPart, FS.inode?, h2, h4, Inode.cache, h5, h6]
+  · intro i hi'
+    simp [FS.inode?, h1, h4] at hi'
+    subst hi'; exact h6
+  · refine ⟨_, by simp [FS.step, FS.unlinkPart, FS.procCrash, h2]; rfl, ?_, ?_⟩
+    · simp [FS.setDir, FS.readDest, FS.inode?, h1, h4, Inode.cache, h5, h6]
+    · simp [FS.setDir, FS.hasPart]
+
+/-- the window is entered by the `link` event -/
+theorem linked_after_link (p : List Ev) (s : St) (h : St.init.run (p ++ [.linkPartDest]) = some s) :
+    s.phase = .linked := by
+  obtain ⟨s1, _, h2⟩ := run_prefix_some _ _ _ _ h
+  simp only [St.run, St.step] at h2
+  by_cases hc : s1.phase = Phase.part ∧ s1.dirtyBuf = false ∧ s1.unsynced = false
+  · simp [hc] at h2; rw [← h2]
+  · simp [hc] at h2
+
+/-- **Publication by `link` never replaces a destination.**  If a destination exists at the start, no
+    accepted trace that publishes by `link` (contains no `rename part dest`) can get past its publishing
+    event (`link` fails with `EEXIST`): at every point the destination's entry and content are the
+    original ones. -/
+theorem link_never_replaces (fs0 : FS) (t : List Ev) (hwf : fs0.WF) (hh : fs0.hist = [])
+    (hsafe : SafeTrace t = true) (hnr : usesRename t = false) (hd : fs0.hasDest = true) :
+    ∀ p q fs, t = p ++ q → exec fs0 p = some fs →
+      publishes p = false ∧ fs.dir.dest = fs0.dir.dest ∧ fs.readDest = fs0.readDest := by
+  intro p q fs ht hx
+  have hpub : publishes p = false := by
+    cases hb : publishes p with
+    | false => rfl
+    | true =>
+      exfalso
+      obtain ⟨p1, e, p2, rfl, hp1, he⟩ := publishes_split p hb
+      subst ht
+      have he' : e = .linkPartDest := by
+        rcases he with rfl | rfl
+        · simp [usesRename_append, usesRename] at hnr
+        · rfl
+      subst he'
+      obtain ⟨fs1, hx1, hx2⟩ := exec_prefix_some fs0 p1 _ fs hx
+      have hsafe1 : SafeTrace (p1 ++ ((.linkPartDest :: p2) ++ q)) = true := by simpa using hsafe
+      have hv := safeTrace_live_view fs0 _ hwf hh hsafe1 p1 _ fs1 rfl hx1
+      have hd1 : fs1.dir.dest = fs0.dir.dest := hv.2.2.2 hp1
+      simp only [exec, FS.step, FS.linkPartDest] at hx2
+      simp only [FS.hasDest] at hd
+      cases hdd : fs0.dir.dest with
+      | none => simp [hdd] at hd
+      | some i =>
+        rw [hd1, hdd] at hx2
+        cases hpp : fs1.dir.part <;> simp [hpp] at hx2
+  have hv := safeTrace_live_view fs0 t hwf hh hsafe p q fs ht hx
+  have hd1 := hv.2.2.2 hpub
+  refine ⟨hpub, hd1, ?_⟩
+  unfold FS.readDest FS.inode?
+  rw [hd1]
+  cases h0 : fs0.dir.dest with
+  | none => rfl
+  | some i => simp only; rw [hv.2.1 i (hwf.1 i h0)]
+
+/-- **One writer per part file**: with a part file in the way and `overwrite_part=False` the exclusive
+    creation fails with `EEXIST` and nothing of the save is executed. -/
+theorem stale_part_blocks (cfg : Cfg) (fs : FS) (body : Body) (hp : fs.hasPart = true)
+    (ho : cfg.overwritePart = false) :
+    exec fs (saverTrace cfg fs body) = none ∧
+    fs.step (.openPart true true (choosePerms cfg fs).1) = .error EEXIST := by
+  simp only [FS.hasPart] at hp
+  cases hpp : fs.dir.part with
+  | none => simp [hpp] at hp
+  | some i =>
+    have h2 : fs.step (.openPart true true (choosePerms cfg fs).1) = .error EEXIST := by
+      simp [FS.step, FS.openPart, hpp]
+    refine ⟨?_, h2⟩
+    simp [saverTrace, ho, exec, h2]
+
+/-- the transliterated saver with `overwrite=False`: its trace is `p ++ [unlink part]`, and after `p`
+    (a crash between `link` and `unlink`) the destination holds the complete new content and the part
+    file's name is a second hard link to the same inode -/
+theorem saver_link_window (cfg : Cfg) (fs0 : FS) (body : Body) (hh : fs0.hist = [])
+    (hp : fs0.dir.part = none ∨ cfg.overwritePart = true) (ho : cfg.overwrite = false)
+    (hd : fs0.dir.dest = none) (hr : body.raises = false) :
+    ∃ p fs, saverTrace cfg fs0 body = p ++ [.unlinkPart] ∧ exec fs0 p = some fs ∧
+      fs.sameInode = true ∧ fs.hasPart = true ∧
+      fs.destAfterProcCrash = some (body.writes.map (·.1)).flatten ∧
+      fs.procCrash.readPart = some (body.writes.map (·.1)).flatten := by
+  obtain ⟨fsE, hxE, _⟩ := saver_exec cfg fs0 body hh hp (Or.inr (Or.inl hd))
+  have hsplit : ∃ p0, saverTrace cfg fs0 body = (p0 ++ [.linkPartDest]) ++ [.unlinkPart] := by
+    refine ⟨(if cfg.overwritePart && fs0.dir.part.isSome then [Ev.unlinkPart] else []) ++
+      [Ev.openPart true true (choosePerms cfg fs0).1, Ev.noop] ++
+      (if (choosePerms cfg fs0).2 then [Ev.chmodPart (choosePerms cfg fs0).1] else []) ++
+      body.writes.map (fun w => Ev.write w.1 w.2) ++ [Ev.flush, Ev.fsync, Ev.close], ?_⟩
+    simp [saverTrace, ho, hr, List.append_assoc]
+  obtain ⟨p0, hs⟩ := hsplit
+  rw [hs] at hxE
+  obtain ⟨fs, hx, _⟩ := exec_prefix_some fs0 _ _ fsE hxE
+  have hrun := saver_run cfg fs0 body
+  rw [hs] at hrun
+  obtain ⟨s, hrs, _⟩ := run_prefix_some _ _ _ _ hrun
+  have hl := linked_after_link p0 s hrs
+  have hw := link_window fs0 (saverTrace cfg fs0 body) hh (saver_safe cfg fs0 body) _ _ fs s hs hx hrs hl
+  rw [allWrites_saverTrace] at hw
+  exact ⟨_, fs, hs, hx, hw.1, hw.2.1, hw.2.2.1, hw.2.2.2.1⟩
+
+/-- non-vacuity -/
+example : let fs0 : FS := ⟨[], ⟨none, none⟩, [], none, 0o022⟩
+    let t := saverTrace { overwrite := false } fs0 ⟨[([1, 2], 0), ([3], 1)], false⟩
+    (exec fs0 t.dropLast).map (fun fs => (fs.sameInode, fs.hasPart, fs.destAfterProcCrash)) = some (true, true, some [1, 2, 3]) ∧
+    (St.init.run t.dropLast).map (·.phase) = some .linked := by decide
+
+/-- **Nothing a died save leaves behind blocks a later `overwrite_part` save**: from ANY state `fs`
+    (in particular every crash state of an earlier save, incl. the link window), once the process is gone
+    and the directory has reached the disk (`FS.reboot`), a save with `overwrite=True, overwrite_part=True`
+    whose block exits normally completes with exactly its own content and no part file. -/
+theorem save_after_crash (fs : FS) (cfg2 : Cfg) (body2 : Body) (ho : cfg2.overwrite = true)
+    (hop : cfg2.overwritePart = true) (hr : body2.raises = false) :
+    ∃ fs', exec fs.reboot (saverTrace cfg2 fs.reboot body2) = some fs' ∧
+      fs'.readDest = some (body2.writes.map (·.1)).flatten ∧ fs'.dir.part = none := by
+  obtain ⟨fs', h1, h2, h3, _⟩ := normal_exit cfg2 fs.reboot body2 rfl (Or.inr hop) (Or.inl ho) hr
+  exact ⟨fs', h1, h2, h3⟩
+
+example : let fs0 : FS := ⟨[⟨[7], [], 0o644⟩], ⟨some 0, none⟩, [], none, 0o022⟩
+    fs0.WF ∧ fs0.hist = [] ∧ fs0.hasDest = true ∧
+    SafeTrace [Ev.openPart true true 0o644, .write [1] 0, .flush, .fsync, .close, .linkPartDest, .unlinkPart] = true ∧
+    usesRename [Ev.openPart true true 0o644, .write [1] 0, .flush, .fsync, .close, .linkPartDest, .unlinkPart] = false ∧
+    exec fs0 [Ev.openPart true true 0o644, .write [1] 0, .flush, .fsync, .close, .linkPartDest] = none ∧
+    (exec fs0 [Ev.openPart true true 0o644, .write [1] 0, .flush, .fsync, .close]).isSome = true := by decide
+
+example : let fs0 : FS := ⟨[⟨[7], [], 0o644⟩, ⟨[9, 9], [], 0o640⟩], ⟨some 0, some 1⟩, [], none, 0o022⟩
+    fs0.hasPart = true ∧ exec fs0 (saverTrace {} fs0 ⟨[([1], 0)], false⟩) = none := by decide
+
+
+/-! ### round 3: the name of the part file -/
+
+/-- translator obligation (regenerated from the current source on every run): the default part file
+    name is the destination path plus a NON-EMPTY suffix without a path separator -/
+theorem source_part_suffix : Gen.partSuffix ≠ [] ∧ Gen.partSuffix.contains '/' = false := by decide
+
+/-- **The part file is a different entry of the destination's own directory.**  For a destination
+    with a plain base name `d` and a `part_file` argument that is absent, empty or a plain file name,
+    whenever the constructor accepts (`partName … = some n`) the part file's name `n` is a plain name
+    (one entry of the destination's directory, so publication never crosses a file system) and differs
+    from `d` (the two names of the file-system model `C04.Dir` really are two names).  A `part_file` that
+    names the destination itself is refused. -/
+theorem part_name_distinct_same_dir (d : Name) (pf : Option Name) (hd : d.plain = true)
+    (hpf : ∀ m, pf = some m → m = [] ∨ m.plain = true) :
+    (∀ n, partName Gen.partSuffix d pf = some n → n ≠ d ∧ n.plain = true) ∧
+    (pf = some d → partName Gen.partSuffix d pf = none) ∧
+    (pf ≠ some d → ∃ n, partName Gen.partSuffix d pf = some n) := by
+  refine ⟨fun n h => ⟨partName_ne_dest _ d pf n source_part_suffix.1 h,
+    partName_plain _ d pf n source_part_suffix.1 source_part_suffix.2 hd hpf h⟩, ?_, ?_⟩
+  · intro h; subst h
+    have : d.isEmpty = false := by
+      cases d with
+      | nil => simp [Name.plain] at hd
+      | cons _ _ => rfl
+    simp [partName, this]
+  · intro h
+    cases pf with
+    | none => exact ⟨_, rfl⟩
+    | some m =>
+      by_cases h1 : m.isEmpty = true
+      · exact ⟨d ++ Gen.partSuffix, by simp [partName, h1]⟩
+      · by_cases h2 : m = d
+        · exact absurd (by rw [h2]) h
+        · exact ⟨m, by simp [partName, h1, h2]⟩
+
+/-- non-vacuity: the default name, an explicit name, the empty name, the refused name -/
+example : partName ".part".toList "dest.txt".toList none = some "dest.txt.part".toList ∧
+    partName ".part".toList "dest.txt".toList (some "x.tmp".toList) = some "x.tmp".toList ∧
+    partName ".part".toList "dest.txt".toList (some []) = some "dest.txt.part".toList ∧
+    partName ".part".toList "dest.txt".toList (some "dest.txt".toList) = none ∧
+    Name.plain "dest.txt".toList = true := by decide
+
+/-- why the refusal is needed: were the part file the destination itself, the "exclusive creation of the
+    part file" is the creation of an EMPTY destination in place and every write goes to the destination
+    directly - a process death after the creation leaves an empty destination where there was none, one
+    after the first write a truncated one (the events are those of `direct_write_breaks`) -/
+theorem part_named_as_dest_breaks :
+    let fs0 : FS := ⟨[], ⟨none, none⟩, [], none, 0o022⟩
+    let t := [Ev.truncDest, .writeDest [1, 2], .writeDest [3]]
+    SafeTrace t = false ∧ fs0.readDest = none ∧
+      (exec fs0 (t.take 1)).map FS.destAfterProcCrash = some (some []) ∧
+      (exec fs0 (t.take 2)).map FS.destAfterProcCrash = some (some [1, 2]) := by decide
+
+/-! ### round 3: the Windows branch of `replace()` / `atomic_rename()` -/
+
+/-- **Windows `replace()` is one atomic `rename part dest`** (whatever the directory looks like, as long as the finished part file is there): the Windows
+    `replace()` - `os.rename`, and `ReplaceFile` when that refuses with `EEXIST` - has exactly the effect
+    of ONE `rename part dest`; the calls it performs, read as events (the refused rename has no effect),
+    contain one publishing event and execute to the same state: the destination reads what the part
+    file held and the part file's name is gone. -/
+theorem nt_replace_is_one_rename (fs : FS) (hp : fs.hasPart = true) :
+    (ntReplace fs).1 = fs.renamePartDest ∧
+    ∃ fs', fs.renamePartDest = .ok fs' ∧ exec fs (ntReplace fs).2 = some fs' ∧
+      publishes (ntReplace fs).2 = true ∧ fs'.readDest = fs.readPart ∧ fs'.hasPart = false := by
+  simp only [FS.hasPart] at hp
+  cases hpp : fs.dir.part with
+  | none => simp [hpp] at hp
+  | some i =>
+    cases hd : fs.dir.dest <;>
+      simp [ntReplace, FS.winRename, FS.replaceFile, FS.renamePartDest, hd, hpp, EEXIST, exec, FS.step,
+        publishes, FS.setDir, FS.readDest, FS.readPart, FS.hasPart, FS.inode?]
+
+/-- Windows `atomic_rename(overwrite=False)` over an existing destination: `os.rename` refuses, the
+    error is raised, nothing has changed -/
+theorem nt_no_overwrite_never_replaces (fs : FS) (hd : fs.hasDest = true) :
+    ntAtomicRename false fs = (.error EEXIST, [.noop]) ∧ exec fs (ntAtomicRename false fs).2 = some fs := by
+  simp only [FS.hasDest] at hd
+  cases hdd : fs.dir.dest with
+  | none => simp [hdd] at hd
+  | some i => simp [ntAtomicRename, FS.winRename, hdd, exec, FS.step]
+
+/-- the transliterated saver with the Windows publication step emits accepted traces, for every
+    configuration, initial state and body -/
+theorem saver_nt_emits_safeTrace (cfg : Cfg) (fs : FS) (body : Body) :
+    SafeTrace (saverTraceNt cfg fs body) = true := saverNt_safe cfg fs body
+
+/-- ... hence it is crash safe at every point (both crash semantics), under the assumption that
+    `ReplaceFile` / Windows `rename` are atomic directory operations -/
+theorem saver_nt_crash_safe (cfg : Cfg) (fs0 : FS) (body : Body) (hwf : fs0.WF) (hh : fs0.hist = [])
+    (hsy : DestSynced fs0) :
+    ∀ p q fs, saverTraceNt cfg fs0 body = p ++ q → exec fs0 p = some fs →
+      (fs.destAfterProcCrash = fs0.readDest ∨ fs.destAfterProcCrash = some (body.writes.map (·.1)).flatten) ∧
+      (∀ r, fs.PowerDest r → r = fs0.readDest ∨ r = some (body.writes.map (·.1)).flatten) ∧
+      (publishes p = false → fs.destAfterProcCrash = fs0.readDest ∧ ∀ r, fs.PowerDest r → r = fs0.readDest) := by
+  intro p q fs ht hx
+  have := safeTrace_crash_safe fs0 _ hwf hh hsy (saverNt_safe cfg fs0 body) p q fs ht hx
+  rw [allWrites_saverTraceNt] at this
+  exact ⟨this.1, this.2.1, this.2.2.1⟩
+
+/-- normal exit on Windows: the complete new content at the destination and no part file -/
+theorem nt_normal_exit (cfg : Cfg) (fs : FS) (body : Body) (hh : fs.hist = [])
+    (hp : fs.dir.part = none ∨ cfg.overwritePart = true)
+    (hd : cfg.overwrite = true ∨ fs.dir.dest = none) (hr : body.raises = false) :
+    ∃ fs', exec fs (saverTraceNt cfg fs body) = some fs' ∧
+      fs'.readDest = some (body.writes.map (·.1)).flatten ∧ fs'.dir.part = none := by
+  have hnd : (fs.hasDest && !cfg.overwrite && cfg.rmPartOnExc) = false := by
+    rcases hd with h | h
+    · simp [h]
+    · simp [FS.hasDest, h]
+  have hrun : (St.mk .part true false false).run (ntRest cfg fs body.writes (ntPublish cfg.overwrite fs.hasDest)) =
+      some ⟨.done, false, false, false⟩ := by
+    rw [ntRest_run]
+    rcases hd with h | h
+    · cases fs.hasDest <;> simp [ntPublish, h, St.run, St.step]
+    · simp [ntPublish, FS.hasDest, h, St.run, St.step]
+  have hauto : ∀ e ∈ ntRest cfg fs body.writes (ntPublish cfg.overwrite fs.hasDest), e.auto fs.dir.dest = true := by
+    intro e he
+    simp only [ntRest, List.mem_cons, List.mem_append, List.mem_map] at he
+    rcases he with he | he | he | he | he
+    · subst he; rfl
+    · split at he <;> simp at he; subst he; rfl
+    · obtain ⟨w, _, rfl⟩ := he; rfl
+    · simp at he; rcases he with rfl | rfl | rfl <;> rfl
+    · unfold ntPublish at he
+      split at he
+      · split at he <;> simp at he
+        · rcases he with rfl | rfl <;> rfl
+        · subst he; rfl
+      · simp at he; subst he; rfl
+  obtain ⟨fs', hx, hi⟩ := open_then_exec cfg fs _ _ hh hp hrun hauto
+  refine ⟨fs', ?_, ?_⟩
+  · rw [saverTraceNt_eq]; simpa [hr, hnd] using hx
+  · have hw : allWrites (ntRest cfg fs body.writes (ntPublish cfg.overwrite fs.hasDest)) = (body.writes.map (·.1)).flatten := by
+      have := allWrites_saverTraceNt cfg fs body
+      rw [saverTraceNt_eq] at this
+      simp only [hr, hnd, allWrites_append] at this
+      have hpre : allWrites (saverPre cfg fs) = [] := by unfold saverPre; split <;> simp [allWrites]
+      simpa [hpre, allWrites] using this
+    rw [hw] at hi
+    simp only [GInv] at hi
+    obtain ⟨h1, h2, _, x, h4, h5, h6, _⟩ := hi
+    exact ⟨by simp [FS.readDest, FS.inode?, h1, h4, Inode.cache, h5, h6], h2⟩
+
+/-- non-vacuity: over an existing destination the Windows save performs a refused rename, then the replacing step -/
+example : let fs0 : FS := ⟨[⟨[7], [], 0o644⟩], ⟨some 0, none⟩, [], none, 0o022⟩
+    saverTraceNt {} fs0 ⟨[([1, 2], 0)], false⟩ =
+      [.openPart true true 0o644, .noop, .chmodPart 0o644, .write [1, 2] 0, .flush, .fsync, .close, .noop, .renamePartDest] ∧
+    (exec fs0 (saverTraceNt {} fs0 ⟨[([1, 2], 0)], false⟩)).map FS.readDest = some (some [1, 2]) := by decide
+
+
+/-! ### round 3: a destination path that is a symbolic link -/
+
+/-- **A destination path that is a symbolic link** (to a file, or to nothing).  On the link-aware file
+    system (`C04.SFS`: the destination's entry is a file or a link to a third name; readers follow the
+    link) every accepted trace is crash safe at every prefix for what a reader of the PATH finds: after a
+    process death exactly the old state (the target's content / no file) or exactly the complete new
+    content, the same for every power-loss outcome; until the publishing event the entry is untouched
+    (a link stays a link), afterwards the path holds the complete new content and the entry is a file;
+    the target's name is never touched and every inode that existed at the start - the target's among
+    them - is unchanged. -/
+theorem symlinked_dest_crash_safe (s0 : SFS) (t : List Ev) (hwf : s0.abs.WF) (hh : s0.hist = [])
+    (hsy : DestSynced s0.abs) (hsafe : SafeTrace t = true) :
+    ∀ p q s, t = p ++ q → SFS.exec s0 p = some s →
+      (s.abs.destAfterProcCrash = s0.readDest ∨ s.abs.destAfterProcCrash = some (allWrites t)) ∧
+      (∀ r, s.abs.PowerDest r → r = s0.readDest ∨ r = some (allWrites t)) ∧
+      (publishes p = false → s.abs.destAfterProcCrash = s0.readDest ∧ s.dir.dest = s0.dir.dest) ∧
+      (publishes p = true → s.abs.destAfterProcCrash = some (allWrites t) ∧ s.dir.dest ≠ some .link) ∧
+      s.dir.tgt = s0.dir.tgt ∧
+      (∀ i, i < s0.inodes.length → s.inodes[i]? = s0.inodes[i]?) := by
+  intro p q s ht hx
+  have hxa := sexec_sim p s0 s hx
+  have hh' : s0.abs.hist = [] := by simp [SFS.abs, hh]
+  have h1 := safeTrace_crash_safe s0.abs t hwf hh' hsy hsafe p q s.abs ht hxa
+  have h2 := safeTrace_live_view s0.abs t hwf hh' hsafe p q s.abs ht hxa
+  refine ⟨h1.1, h1.2.1, ?_, ?_, sexec_tgt p s0 s hx, h2.2.1⟩
+  · intro hp
+    exact ⟨(h1.2.2.1 hp).1, (sexec_dest p s0 s hx).1 hp⟩
+  · intro hp
+    obtain ⟨i, hi⟩ := (sexec_dest p s0 s hx).2 hp
+    exact ⟨h1.2.2.2 hp, by rw [hi]; simp⟩
+
+/-- non-vacuity: the destination is a link to a file with synced content `[7]`; a full save through
+    `rename`; afterwards the path reads the new content, the entry is a file, the target still holds `[7]` -/
+example : let s0 : SFS := ⟨[⟨[7], [], 0o644⟩], ⟨some .link, none, some 0⟩, [], none, 0o022⟩
+    let t := [Ev.openPart true true 0o644, .noop, .chmodPart 0o644, .write [1, 2] 0, .flush, .fsync, .close, .renamePartDest]
+    s0.abs.WF ∧ s0.hist = [] ∧ s0.readDest = some [7] ∧ SafeTrace t = true ∧
+    (SFS.exec s0 t).map (fun s => (s.readDest, s.dir.dest, s.inodes[0]?.map Inode.cache)) =
+      some (some [1, 2], some (.file 1), some [7]) := by decide
+
+/-- a link to nothing: `link part dest` (overwrite=False) refuses, since the NAME exists -/
+example : let s0 : SFS := ⟨[], ⟨some .link, none, none⟩, [], none, 0o022⟩
+    s0.readDest = none ∧
+    SFS.exec s0 [Ev.openPart true true 0o644, .write [1] 0, .flush, .fsync, .close, .linkPartDest] = none ∧
+    (SFS.exec s0 [Ev.openPart true true 0o644, .write [1] 0, .flush, .fsync, .close, .renamePartDest]).map SFS.readDest = some (some [1]) := by decide
+
 
 end C04
